@@ -62,7 +62,7 @@ fn op_allowed<E: EndianParse, S: std::io::Read + std::io::Seek>(f: &elf::ElfStre
         }
     };
     match q {
-        Q::Ehdr | Q::Counts | Q::Shdr(_) | Q::Phdr(_) | Q::SegData(_) | Q::SysvFind(_) | Q::GnuFind(_) => {}
+        Q::Ehdr | Q::Counts | Q::Shdr(_) | Q::Phdr(_) | Q::SegData(_) | Q::SysvFind(_) | Q::GnuFind(_) | Q::CommonDynamic => {}
         Q::SecData(i) | Q::SecStrtab(i) | Q::SecRels(i) | Q::SecRelas(i) | Q::SecNotes(i) => push_sec(&mut v, *i),
         Q::FabSecData(h) | Q::FabSecStrtab(h) | Q::FabSecNotes(h) | Q::FabSecRels(h) | Q::FabSecRelas(h) => {
             if let Some(r) = sec_range(h) {
@@ -205,7 +205,7 @@ fn check(data_in: &[u8], mode: &'static str, note: &str, big_pad: bool, names: &
     };
     let nsec = fs.section_headers().len();
     let nseg = fs.segments().len();
-    let (ops, _) = stream::gen_ops(&mut c, nsec, nseg, data.len(), &names, 24);
+    let (ops, _) = stream::gen_ops(&mut c, nsec, nseg, data.len(), &names, 40);
     let mut max_alloc = a.max_request;
     let mut undesignated_total = 0u64;
     for (k, q) in ops.iter().enumerate() {
@@ -215,8 +215,11 @@ fn check(data_in: &[u8], mode: &'static str, note: &str, big_pad: bool, names: &
         let a = alloc::close();
         r.map_err(|p| format!("{}: op #{} {:?} panicked: {}", ctx, k, q, p))?;
         max_alloc = max_alloc.max(a.max_request);
-        if a.max_request > limit {
-            return Err(format!("{}: op #{} {:?} made a single allocation of {} bytes; the bound is 8*len+4096 = {}", ctx, k, q, a.max_request, limit));
+        // the cache's own table holds one entry per distinct range the CALLER asked for; that bookkeeping is
+        // not driven by header claims and is allowed 64 bytes per call made so far on top of the bound
+        let limit_k = limit + 64 * (k + 1);
+        if a.max_request > limit_k {
+            return Err(format!("{}: op #{} {:?} made a single allocation of {} bytes; the bound is 8*len+4096 (+64 per call made) = {}", ctx, k, q, a.max_request, limit_k));
         }
         let log = reader.take_log();
         let ranges = io::read_ranges(&log);
